@@ -163,7 +163,7 @@ func main() {
 		for vi := range variants {
 			limit := limits[(si+vi)%len(limits)]
 			loads := []int{0, int(limit) - 1}
-			if state == "idle" || state == "closed-end-stream" || state == "closed-client-rst" || state == "closed-server-rst" || state == "rejected-malformed-headers" {
+			if state == "idle" || state == "closed-end-stream" || state == "closed-client-rst" || state == "closed-server-rst" || state == "rejected-malformed-headers" || state == lateEndState {
 				loads = append(loads, int(limit)) // the target is not active: the limit is already reached without it
 			}
 			for _, o := range loads {
